@@ -124,15 +124,15 @@ theorem text_block_replicas_converge {s : TextSys} {B : Nat → TextSt} (h : BRe
   have e : abs (B c₁) = abs (B c₂) := by
     rw [(hB c₁).2, (hB c₂).2, text_converge_quiescent hr c₁ c₂ hp₁ hc₁ hp₂ hc₂]
   refine ⟨e, by rw [visible_eq_liveUnits, visible_eq_liveUnits, e], fun tc => ?_, fun tc => ?_⟩
-  · rw [toString_eq (hB c₁).1, toString_eq (hB c₂).1, e]
-  · exact marshal_eq_of_abs (hB c₁).1 (hB c₂).1 (breach_attrs h c₁) (breach_attrs h c₂) e tc
+  · rw [toString_eq (hB c₁).1.toG, toString_eq (hB c₂).1.toG, e]
+  · exact marshal_eq_of_abs (hB c₁).1.toG (hB c₂).1.toG (breach_attrs h c₁) (breach_attrs h c₂) e tc
 
 /-- `Text.String()`, `Text.Marshal()` and the live content are determined by the abstract state -/
 theorem text_marshal_determined_by_abs {s s' : TextSt} (wf : WF s) (wf' : WF s')
     (a : AttrsNodup s) (a' : AttrsNodup s') (h : abs s = abs s') (tc : Ticket) :
     Text.marshal tc s = Text.marshal tc s' ∧ Text.toString tc s = Text.toString tc s' ∧
       visible s = visible s' :=
-  ⟨marshal_eq_of_abs wf wf' a a' h tc, by rw [toString_eq wf, toString_eq wf', h],
+  ⟨marshal_eq_of_abs wf.toG wf'.toG a a' h tc, by rw [toString_eq wf.toG, toString_eq wf'.toG, h],
     by rw [visible_eq_liveUnits, visible_eq_liveUnits, h]⟩
 
 /-- the author's local call (`vv = nil`) and the call with the change's vector have the same
